@@ -59,7 +59,11 @@ func (g c18cfg) yaml() string {
 			if len(s.Deps) > 0 {
 				var d []interface{}
 				for _, x := range s.Deps {
-					d = append(d, x)
+					if x == "\x00null" {
+						d = append(d, nil) // a null entry (a trailing `-` in YAML)
+					} else {
+						d = append(d, x)
+					}
 				}
 				o.Set("depends_on", d)
 			}
@@ -154,6 +158,15 @@ func c18mutants(g c18cfg) []c18mut {
 			m := g.clone()
 			m.Pipelines[p][i].Deps = append(m.Pipelines[p][i].Deps, "ghost-stage")
 			ms = append(ms, c18mut{"depends_on", m, fmt.Sprintf("%s[%d].depends_on+=ghost-stage", p, i)})
+			// an entry that names nothing: empty, blank, null - no stage has such a name
+			for bi, blank := range []string{"", " ", "\x00null"} {
+				if (i+bi)%3 != 0 {
+					continue
+				}
+				m := g.clone()
+				m.Pipelines[p][i].Deps = append(m.Pipelines[p][i].Deps, blank)
+				ms = append(ms, c18mut{"depends_on", m, fmt.Sprintf("%s[%d].depends_on+=%q", p, i, blank)})
+			}
 			if len(s.Deps) > 0 {
 				m := g.clone()
 				m.Pipelines[p][i].Deps[0] = "ghost-stage"
